@@ -2,11 +2,14 @@ module verifharness
 
 go 1.20
 
-require seata.apache.org/seata-go v0.0.0
+require (
+	github.com/arana-db/parser v0.2.17
+	github.com/go-sql-driver/mysql v1.6.0
+	seata.apache.org/seata-go v0.0.0
+)
 
 require (
 	github.com/apache/dubbo-getty v1.5.0 // indirect
-	github.com/arana-db/parser v0.2.17 // indirect
 	github.com/beorn7/perks v1.0.1 // indirect
 	github.com/cespare/xxhash/v2 v2.2.0 // indirect
 	github.com/coreos/go-semver v0.3.0 // indirect
